@@ -239,6 +239,182 @@ theorem C11_transfer_out (tb : Tables) (t : Task) (fs fs' : FS) (pre post : List
   rw [hplan] at hrun
   exact exec_effect pre post (.copy s g) s g fs fs' (Or.inl rfl) hsg hsimple hpre hpost hrun
 
+/-- the fold of the agent side input stager, as a relation between directives and operations -/
+theorem agentIn_fold (tb : Tables) (t : Task) (l : List SD) : ∀ (acc : List Op × Bool),
+    (acc.2 = false → l.foldl (agentInStep tb t) acc = acc)
+    ∧ ((l.foldl (agentInStep tb t) acc).2 = true →
+        acc.2 = true
+        ∧ (l.foldl (agentInStep tb t) acc).1
+          = acc.1 ++ (l.filter (fun sd => tb.agentInDo.contains sd.action)).filterMap (fun sd => (agentInOp t sd).join)
+        ∧ ∀ sd ∈ l.filter (fun sd => tb.agentInDo.contains sd.action), (agentInOp t sd).isSome = true) := by
+  induction l with
+  | nil => intro acc; exact ⟨fun _ => rfl, fun h => ⟨h, by simp, by simp⟩⟩
+  | cons sd l ih =>
+    intro acc
+    rw [foldl_cons]
+    rcases acc with ⟨ops, ok⟩
+    cases ok with
+    | false =>
+      have hstep : agentInStep tb t (ops, false) sd = (ops, false) := by simp [agentInStep]
+      rw [hstep]
+      refine ⟨fun _ => (ih (ops, false)).1 rfl, ?_⟩
+      intro h
+      rw [(ih (ops, false)).1 rfl] at h
+      cases h
+    | true =>
+      refine ⟨(fun h => by cases h), ?_⟩
+      by_cases hd : tb.agentInDo.contains sd.action = true
+      · have hd' : sd.action ∈ tb.agentInDo := by simpa using hd
+        cases hop : agentInOp t sd with
+        | none =>
+          have hstep : agentInStep tb t (ops, true) sd = (ops, false) := by simp [agentInStep, hd', hop]
+          rw [hstep]
+          intro h
+          rw [(ih (ops, false)).1 rfl] at h
+          cases h
+        | some o =>
+          cases o with
+          | none =>
+            have hstep : agentInStep tb t (ops, true) sd = (ops, true) := by simp [agentInStep, hd', hop]
+            rw [hstep]
+            intro h
+            obtain ⟨j1, j2, j3⟩ := (ih (ops, true)).2 h
+            refine ⟨j1, ?_, ?_⟩
+            · rw [j2, filter_cons, if_pos hd, filterMap_cons, hop]; rfl
+            · intro x hx
+              rw [filter_cons, if_pos hd] at hx
+              rcases mem_cons.mp hx with e | e
+              · rw [e, hop]; rfl
+              · exact j3 x e
+          | some op =>
+            have hstep : agentInStep tb t (ops, true) sd = (ops ++ [op], true) := by simp [agentInStep, hd', hop]
+            rw [hstep]
+            intro h
+            obtain ⟨_, j2, j3⟩ := (ih (ops ++ [op], true)).2 h
+            refine ⟨rfl, ?_, ?_⟩
+            · rw [j2, filter_cons, if_pos hd, filterMap_cons, hop, append_assoc]; rfl
+            · intro x hx
+              rw [filter_cons, if_pos hd] at hx
+              rcases mem_cons.mp hx with e | e
+              · rw [e, hop]; rfl
+              · exact j3 x e
+      · have hd' : sd.action ∉ tb.agentInDo := by simpa using hd
+        have hstep : agentInStep tb t (ops, true) sd = (ops, true) := by simp [agentInStep, hd']
+        rw [hstep]
+        intro h
+        obtain ⟨j1, j2, j3⟩ := (ih (ops, true)).2 h
+        refine ⟨j1, ?_, ?_⟩
+        · rw [j2, filter_cons, if_neg hd]
+        · intro x hx; rw [filter_cons, if_neg hd] at hx; exact j3 x hx
+
+/-- **from directives to operations** (agent side of input staging): when the stage could resolve all it
+    had to, its operations are, in order, what the directives the agent acts on become in the agent's
+    contexts: COPY / LINK / MOVE resolved against the task sandbox with a local target, and the extraction
+    of the tarball the client packed (other TARBALL directives need nothing here) -/
+theorem C11_agent_in_plan (tb : Tables) (t : Task) (inputs : List SD) (hok : (agentInPlan tb t inputs).2 = true) :
+    (agentInPlan tb t inputs).1
+      = ((inputs.filter (fun sd => tb.agentIn.contains sd.action)).filter (fun sd => tb.agentInDo.contains sd.action)).filterMap
+          (fun sd => (agentInOp t sd).join)
+    ∧ ∀ sd ∈ (inputs.filter (fun sd => tb.agentIn.contains sd.action)).filter (fun sd => tb.agentInDo.contains sd.action),
+        (agentInOp t sd).isSome = true := by
+  unfold agentInPlan at hok ⊢
+  obtain ⟨_, j2, j3⟩ := (agentIn_fold tb t _ ([], true)).2 hok
+  rw [j2]
+  exact ⟨rfl, j3⟩
+
+/-- the fold of the agent side output stager, as a relation between directives and operations -/
+theorem agentOut_fold (tb : Tables) (t : Task) (l : List SD) : ∀ (acc : List Op × Bool),
+    (acc.2 = false → l.foldl (agentOutStep tb t) acc = acc)
+    ∧ ((l.foldl (agentOutStep tb t) acc).2 = true →
+        acc.2 = true
+        ∧ (l.foldl (agentOutStep tb t) acc).1
+          = acc.1 ++ (l.filter (fun sd => tb.agentOutDo.contains sd.action)).filterMap (agentOutOp t)
+        ∧ ∀ sd ∈ l.filter (fun sd => tb.agentOutDo.contains sd.action), (agentOutOp t sd).isSome = true) := by
+  induction l with
+  | nil => intro acc; exact ⟨fun _ => rfl, fun h => ⟨h, by simp, by simp⟩⟩
+  | cons sd l ih =>
+    intro acc
+    rw [foldl_cons]
+    rcases acc with ⟨ops, ok⟩
+    cases ok with
+    | false =>
+      have hstep : agentOutStep tb t (ops, false) sd = (ops, false) := by simp [agentOutStep]
+      rw [hstep]
+      obtain ⟨i1, i2⟩ := ih (ops, false)
+      refine ⟨fun _ => i1 rfl, ?_⟩
+      intro h
+      rw [i1 rfl] at h
+      cases h
+    | true =>
+      refine ⟨(fun h => by cases h), ?_⟩
+      by_cases hd : tb.agentOutDo.contains sd.action = true
+      · have hd' : sd.action ∈ tb.agentOutDo := by simpa using hd
+        cases hop : agentOutOp t sd with
+        | none =>
+          have hstep : agentOutStep tb t (ops, true) sd = (ops, false) := by simp [agentOutStep, hd', hop]
+          rw [hstep]
+          intro h
+          rw [(ih (ops, false)).1 rfl] at h
+          cases h
+        | some op =>
+          have hstep : agentOutStep tb t (ops, true) sd = (ops ++ [op], true) := by simp [agentOutStep, hd', hop]
+          rw [hstep]
+          intro h
+          obtain ⟨_, j2, j3⟩ := (ih (ops ++ [op], true)).2 h
+          refine ⟨rfl, ?_, ?_⟩
+          · rw [j2, filter_cons, if_pos hd, filterMap_cons, hop, append_assoc]; rfl
+          · intro x hx
+            rw [filter_cons, if_pos hd] at hx
+            rcases mem_cons.mp hx with e | e
+            · rw [e, hop]; rfl
+            · exact j3 x e
+      · have hd' : sd.action ∉ tb.agentOutDo := by simpa using hd
+        have hstep : agentOutStep tb t (ops, true) sd = (ops, true) := by simp [agentOutStep, hd']
+        rw [hstep]
+        intro h
+        obtain ⟨j1, j2, j3⟩ := (ih (ops, true)).2 h
+        refine ⟨j1, ?_, ?_⟩
+        · rw [j2, filter_cons, if_neg hd]
+        · intro x hx; rw [filter_cons, if_neg hd] at hx; exact j3 x hx
+
+/-- **from directives to operations** (agent side of output staging): when the stage could resolve all it
+    had to, its operations are, one for one and in order, what the directives the agent acts on (COPY, LINK,
+    MOVE) become in the agent's contexts - relative paths relative to the task sandbox, both ends local -/
+theorem C11_agent_out_plan (tb : Tables) (t : Task) (hs : t.target = "DONE" ∨ t.stageOnError = true)
+    (hok : (agentOutPlan tb t).2 = true) :
+    (agentOutPlan tb t).1
+      = ((t.outputs.filter (fun sd => tb.agentOut.contains sd.action)).filter (fun sd => tb.agentOutDo.contains sd.action)).filterMap (agentOutOp t)
+    ∧ ∀ sd ∈ (t.outputs.filter (fun sd => tb.agentOut.contains sd.action)).filter (fun sd => tb.agentOutDo.contains sd.action),
+        (agentOutOp t sd).isSome = true := by
+  unfold agentOutPlan at hok ⊢
+  have hc : ¬ (t.target ≠ "DONE" ∧ ¬ t.stageOnError = true) := by
+    intro hh; rcases hs with h1 | h1
+    · exact hh.1 h1
+    · exact hh.2 h1
+  rw [if_neg hc] at hok ⊢
+  obtain ⟨_, j2, j3⟩ := (agentOut_fold tb t _ ([], true)).2 hok
+  rw [j2]
+  exact ⟨rfl, j3⟩
+
+/-- ... so after a successful agent side stage (input or output) every COPY / LINK / MOVE the stage planned,
+    whose source is not touched by the operations before it and whose target is not touched by those after
+    it, has left the content of its source (as it was when the stage began) in its target -/
+theorem C11_agent_stage_effect (plan : List Op × Bool) (fs fs' : FS) (pre post : List Op) (op : Op) (s g : Path)
+    (hplan : plan.1 = pre ++ op :: post) (hop : op = .copy s g ∨ op = .link s g ∨ op = .move s g) (hsg : s ≠ g)
+    (hsimple : ∀ o ∈ pre ++ post, o.simple = true)
+    (hpre : ∀ o ∈ pre, s ∉ touched o) (hpost : ∀ o ∈ post, g ∉ touched o)
+    (hrun : runStageA fs plan = (fs', true)) :
+    fs'.read g = fs.read s ∧ (fs.read s).isSome = true := by
+  unfold runStageA at hrun
+  rcases he : exec fs plan.1 with ⟨fs1, b⟩
+  rw [he] at hrun
+  cases b with
+  | false => simp at hrun
+  | true =>
+    simp only [Prod.mk.injEq] at hrun
+    rw [hplan, hrun.1] at he
+    exact exec_effect pre post op s g fs fs' hop hsg hsimple hpre hpost he
+
 /-! ## failed tasks and error locality -/
 
 /-- output directives of a task that did not end DONE are not carried out unless staging on error
